@@ -9,6 +9,7 @@
   point becomes a loop `for idx in range(len(row))` over the points of the row:
 
   * `knot_insertion`  : `temp[i][idx][:] = [alpha*e2 + (1-alpha)*e1 …]`                 → `knotInsertionRows`
+                        (index form; the loops as coded are `knotInsertionRowsA51`, Model/InsertRowsA51.lean)
   * `knot_removal`    : `temp[ii][idx] = […]`, `temp[jj][idx] = […]`, the removability flag from the
                         FIRST point of the rows only (`temp[ii-1][0]` …)                   → `knotRemovalRows`
   * `knot_refinement` : `new_ctrlpts[idx-1][idx2] = [alpha*p1 + (1-alpha)*p2 …]` (A5.4) → `refineA54Rows`
